@@ -91,6 +91,13 @@ DEF_POOL += ["1e999", "-1e999", LONG_LAMBDA, LONG_COMP]
 # are ordinary pool entries
 DEF_POOL += ["re.compile(r'[a\\-z]')", "re.compile(r'[+\\-*/]+')", "re.compile(r'(?i:a)b')", "re.compile(r'(?i-s:a.)b')"]
 ANN_POOL += [('typing.Annotated[int, "doc"]', "typing.Annotated[int, 'doc']"), ('typing.Annotated["Foo", "doc"]', "typing.Annotated[Foo, 'doc']")]
+# commas inside string / bytes bodies, regexes and values printed by astor are not parameter separators
+DEF_POOL += ["', '", "b', '", "'a, b; c, d'", "re.compile(r'a, b')", "f('x, y', z)", "{'k, l': ', '}", "lambda a, b: (a, b)", "f', {x}, '"]
+ANN_POOL += [("{L}['a, b', 'c']", "{L}['a, b', 'c']"), ('Dict[str, {L}[", "]]', "Dict[str, {L}[', ']]")]
+# a string annotation that is not an expression stays the string that was written - and does not keep the valid string
+# annotations of the same function from being shown unquoted
+ANN_POOL += [('"seconds, or forever"', "'seconds, or forever'"), ('"not an expression!"', "'not an expression!'"),
+             ('List["a b"]', "List['a b']")]
 # starred operands in displays and calls keep their parentheses; regular expressions are shown as the same expression
 DEF_POOL += ["[*(EXTRA or ()), 'x']", "(*(a if b else c), 1)", "[*(not a), b]", "f(*(a or b))", "[*a, *b]",
              "{**(a or b), 'k': 1}", "f(**(a or b))",
@@ -105,8 +112,8 @@ CASES: List[Dict[str, Any]] = []          # set before forking the pool: workers
 RICH = False
 
 
-def cfg_text(maxp: int, anns: Tuple[str, ...] = ("none", "plain", "string")) -> str:
-    return (f"SPECIFICATION Spec\nCONSTANTS MaxP = {maxp}\n          AnnStates = {{{', '.join(json.dumps(a) for a in anns)}}}\n"
+def cfg_text(maxp: int, anns: Tuple[str, ...] = ("none", "plain", "string"), minp: int = 0) -> str:
+    return (f"SPECIFICATION Spec\nCONSTANTS MaxP = {maxp}\n          MinP = {minp}\n          AnnStates = {{{', '.join(json.dumps(a) for a in anns)}}}\n"
             "          RetStates = {\"none\", \"None\", \"plain\", \"string\"}\nCONSTRAINT Emit\n"
             "INVARIANT SameParameters\nINVARIANT SameReturn\nINVARIANT ShownIsValid\n")
 
@@ -353,11 +360,23 @@ def work(span: Tuple[int, int, int]) -> Dict[str, Any]:
     def group_lines(gi: int, grp: List[int]) -> List[str]:
         """one overloaded function; every other one is preceded by an earlier plain definition of the same name
         (a fallback the overload set then replaces), the history `def g ... ; @overload def g ... ; def g`"""
-        out_ = [f"def g{lo}_{gi}(value, *args, **kwargs): pass"] if gi % 2 else []
+        pre_, chunks_, impl_ = group_parts(gi, grp)
+        return pre_ + [x for ch in chunks_ for x in ch] + impl_
+
+    def group_parts(gi: int, grp: List[int]) -> Tuple[List[str], List[List[str]], List[str]]:
+        pre_ = [f"def g{lo}_{gi}(value, *args, **kwargs): pass"] if gi % 2 else []
         deco = "@overload" if gi % 3 == 0 else "@compat.overload"
-        for k_ in grp:
-            out_ += [deco, write_def(f"g{lo}_{gi}", cases[k_], exs[k_], body="...")]
-        return out_ + [f"def g{lo}_{gi}(*args, **kwargs): pass"]
+        chunks_ = [[deco, write_def(f"g{lo}_{gi}", cases[k_], exs[k_], body="...")] for k_ in grp]
+        return pre_, chunks_, [f"def g{lo}_{gi}(*args, **kwargs): pass"]
+
+    def interleaved(ga: int, gb: int) -> List[str]:
+        """two overload sets of one scope written INTERLEAVED: @overload a ; @overload b ; @overload a ; ... ; def a ; def b"""
+        pa, ca, ia = group_parts(ga, groups[ga])
+        pb, cb, ib = group_parts(gb, groups[gb])
+        mixed: List[str] = []
+        for i_ in range(max(len(ca), len(cb))):
+            mixed += (ca[i_] if i_ < len(ca) else []) + (cb[i_] if i_ < len(cb) else [])
+        return pa + pb + mixed + ia + ib
 
     # a third of the groups stays in the module and uses `@overload`; the others live in a package p<lo> and name the
     # decorator through the sibling module `compat` (`from . import compat` ; `@compat.overload`): in a_first, which is
@@ -367,8 +386,22 @@ def work(span: Tuple[int, int, int]) -> Dict[str, Any]:
     gmod = lambda gi: modname if gi % 3 == 0 else (f"{pkg}.a_first" if gi % 3 == 1 else f"{pkg}.z_last")
     pkg_header = ["from typing import List, Optional, Dict, Callable, Tuple", "import typing, re", "from typing import Literal as Lit", imp, "from . import compat"]
     side: Dict[str, List[str]] = {f"{pkg}.a_first": list(pkg_header), f"{pkg}.z_last": list(pkg_header)}
+    # the groups of the module itself: every other pair of them is written interleaved
+    main_gis = [gi for gi in range(len(groups)) if gi % 3 == 0]
+    unit_lines: Dict[int, List[str]] = {}
+    for i_ in range(0, len(main_gis), 2):
+        pair = main_gis[i_:i_ + 2]
+        if len(pair) == 2 and (i_ // 2) % 2 == 0:
+            unit_lines[pair[0]] = unit_lines[pair[1]] = interleaved(pair[0], pair[1])
+            lines.extend(unit_lines[pair[0]])
+        else:
+            for gi in pair:
+                unit_lines[gi] = group_lines(gi, groups[gi])
+                lines.extend(unit_lines[gi])
     for gi, grp in enumerate(groups):
-        (lines if gi % 3 == 0 else side[gmod(gi)]).extend(group_lines(gi, grp))
+        if gi % 3 != 0:
+            unit_lines[gi] = group_lines(gi, grp)
+            side[gmod(gi)].extend(unit_lines[gi])
     msgs: List[Tuple[str, str]] = []
 
     def package_modules(first: List[str], last: List[str]) -> List[List[Any]]:
@@ -456,7 +489,7 @@ def work(span: Tuple[int, int, int]) -> Dict[str, Any]:
         if k == 0:
             out["samples"].append({"source": src, "displayed": text})
     for gi, grp in enumerate(groups):
-        own = group_lines(gi, grp)
+        own = unit_lines[gi]
         fn, err = lookup(f"g{lo}_{gi}", own, gmod(gi))
         if err is not None:
             continue                      # already reported for the plain definitions of the same layouts
@@ -565,8 +598,22 @@ def run(ctx: Ctx) -> int:
         # a fifth of the layouts once more with pool expressions (lambda defaults with colliding parameter names,
         # equal-valued constants of different types in both orders within one module, nested string annotations ...)
         rich_cases = [c for i, c in enumerate(cases) if i % 5 == ctx.seed % 5]
+        # ... and long signatures (up to 7 parameters: more than pages show on one line) sampled by TLC
+        r2 = ctx.tlc("Signature", cfg_text(7, minp=6), workers=1, check=True, simulate="num=1500", depth=12, seed=ctx.seed, timeout=600)
+        design += [v for v in r2.violated if v not in design]
+        seen_q: set = set()
+        sim_q: List[Dict[str, Any]] = []
+        for x in r2.printed:
+            k = json.dumps([x["params"], x["ret"]])
+            if k not in seen_q and len(x["params"]) >= 6:
+                seen_q.add(k)
+                sim_q.append(x)
+        if len(sim_q) < 300:
+            raise MachineryError(f"TLC -simulate produced only {len(sim_q)} distinct layouts of 6-7 parameters")
+        rich_cases += sim_q
         sim_tot = run_cases(ctx, rich_cases, rich=True, per=400)
         ctx.extra["layouts_with_pool_expressions"] = len(rich_cases)
+        ctx.extra["layouts_simulated_6_7_params"] = len(sim_q)
     else:
         r2 = ctx.tlc("Signature", cfg_text(7), workers=1, check=True, simulate="num=6000", depth=12, seed=ctx.seed, timeout=1500)
         design += [v for v in r2.violated if v not in design]
@@ -675,11 +722,21 @@ def replay(ctx: Ctx, path: str) -> int:
         return 1
     fn = system.allobjects[w.get("target") or f"m.{name}"]
     if w["origin"] == "overload-page":
+        if j >= len(fn.overloads):
+            print(f"replay: still violated: overload {j} of {fn.fullName()} is missing")
+            print(f"VIOLATION property=C14 replay={path}")
+            ctx.cleanup()
+            return 1
         text = flatten_text(format_signature(fn.overloads[j]))
         page = [x for x in (flatten_text(y) for y in format_overloads(fn)) if x.startswith("def ")]
         bad = page[j:j + 1] != [f"def {name}{text}:"]
         got: Any = page
     else:
+        if is_ov and j >= len(fn.overloads):
+            print(f"replay: still violated: overload {j} of {fn.fullName()} is missing ({len(fn.overloads)} overloads recorded)")
+            print(f"VIOLATION property=C14 replay={path}")
+            ctx.cleanup()
+            return 1
         text = flatten_text(format_signature(fn.overloads[j] if is_ov else fn))
         got = read_back(text)
         bad = got != w["expected"]
